@@ -27,6 +27,9 @@ class Module:
                     last += 1
                 ds.append(last)
             self.enums[f"En{i}"] = ds
+            # a variant is written without `= d` when that is what rustc would infer anyway
+            self.enum_implicit = getattr(self, "enum_implicit", {})
+            self.enum_implicit[f"En{i}"] = [(d == (ds[j - 1] + 1 if j else 0)) and rng.random() < 0.8 for j, d in enumerate(ds)]
         for i in range(n_structs):
             fields = []
             for j in range(rng.randint(1, 5)):
@@ -242,8 +245,7 @@ class Module:
             if kind == "u": return f"(({c}){v}ULL)"
             return f"(({c})({v}LL))" if v != -2**63 else f"(({c})(-9223372036854775807LL - 1))"
         if k == "enum":
-            d = self.enums[ty[1]][v]
-            return f"(({ty[1]})({d}))" if d != -2**31 else f"(({ty[1]})(-2147483647 - 1))"
+            return f"{ty[1]}_V{v}"          # the constant the generated header declares
         if k == "struct":
             return f"(({ty[1]}){{" + ", ".join(f".{f} = {self.c_make(t, v[f], pre, uid)}" for f, t in self.structs[ty[1]]) + "})"
         if k == "oref":
@@ -402,7 +404,7 @@ def rust_source(mod, methods, extra_items=""):
          "    use diplomat_runtime::{DiplomatWrite, DiplomatStr, DiplomatStr16, DiplomatOption, DiplomatChar, DiplomatByte};",
          "    #[allow(unused_imports)]", "    use core::fmt::Write;"]
     for e, ds in mod.enums.items():
-        L.append(f"    pub enum {e} {{ " + ", ".join(f"V{i} = {d}" for i, d in enumerate(ds)) + " }")
+        L.append(f"    pub enum {e} {{ " + ", ".join((f"V{i}" if mod.enum_implicit[e][i] else f"V{i} = {d}") for i, d in enumerate(ds)) + " }")
     for s, fs in mod.structs.items():
         L.append(f"    pub struct {s} {{ " + ", ".join(f"pub {f}: {mod.rust_ty(t)}" for f, t in fs) + " }")
     L += ["    pub struct Zs {}", "    #[diplomat::opaque]", "    pub struct Op(pub i64);", "    impl Op {",
